@@ -109,6 +109,36 @@ Proof.
   destruct (run_from c pol (S i) st' r) as [ps tcs]. simpl in *. exact IH.
 Qed.
 
+(** ---- phases 2 and 3: the first accepted call, and the line that follows it *)
+Lemma first_call_step : forall c pol b i st e0 fs1,
+  s_status st = [] -> s_dbg st = mkD None None None 0 -> s_filter st = fs1 ->
+  e_kind e0 = KCall -> fst (rejected c e0 fs1) = false -> e_par e0 = Some b ->
+  info_ok b (s_info st) -> (e_fid e0 = b -> e_gen e0 = false) ->
+  exists st2, step c pol i st e0 = (st2, None, true) /\
+    s_dbg st2 = mkD (Some b) None None 0 /\ lookup (e_fid e0) (s_status st2) = Some Wrapped /\ info_ok b (s_info st2).
+Proof.
+  intros c pol b i st e0 fs1 ST D F K ACC PAR IO NG. unfold step. rewrite K. cbv zeta. cbn [s_filter]. rewrite F.
+  destruct (rejected c e0 fs1) as [rej fs2] eqn:R. simpl in ACC. subst rej.
+  unfold dispatch_call. cbn [s_dbg]. rewrite D. cbn [botframe].
+  eexists. split; [reflexivity|]. cbn [set_status set_dbg s_dbg s_status s_info stopframe returnframe stoplineno].
+  split; [rewrite PAR; reflexivity|]. split; [cbn [lookup]; rewrite Z.eqb_refl; reflexivity|].
+  intros p g [H|H]; [inversion H; subst; apply NG; reflexivity | eapply IO; eauto].
+Qed.
+
+Lemma line_step : forall c b i st l,
+  s_dbg st = mkD (Some b) None None 0 -> lookup (e_fid l) (s_status st) = Some Wrapped ->
+  e_kind l = KLine -> info_ok b (s_info st) ->
+  exists st3, step c (all Continue) i st l = (st3, Some (mkP i KLine (e_line l) (e_fid l)), true) /\ quiet b st3.
+Proof.
+  intros c b i st l D L K IO. unfold step. rewrite K, L. unfold dispatch_line, stop_here. rewrite D. cbn [stopframe].
+  unfold interaction, all, apply_cmd.
+  match goal with |- context[curframe ?s l] => destruct (curframe s l) as [[[cur cl] cp] cg] end.
+  cbn [s_dbg set_stopinfo botframe s_status s_info s_filter s_nprompt].
+  eexists. split; [rewrite K; reflexivity|].
+  unfold quiet. cbn [s_dbg s_info]. rewrite D. cbn [set_stopinfo botframe stopframe returnframe stoplineno].
+  repeat split; eauto.
+Qed.
+
 (** ---- the theorem *)
 Theorem continue_once : forall c pre e0 l post b fs1,
   stream_traced c = true ->
@@ -126,27 +156,13 @@ Proof.
   rewrite RF. cbn [fst app]. cbn zeta in FIN. destruct FIN as (F1 & F2 & F3 & F4 & F5).
   set (st1 := final c (all Continue) 0 (init c) pre) in *.
   rewrite Nat.add_0_l.
-  (* the first accepted call *)
-  simpl run_from. unfold step at 1. rewrite K0. cbv zeta. cbn [s_filter]. rewrite F3.
-  destruct (rejected c e0 fs1) as [rej fs2] eqn:R. simpl in ACC. subst rej.
-  unfold dispatch_call. cbn [s_dbg]. rewrite F2. cbn [init s_dbg botframe].
-  (* the line that follows *)
-  unfold step at 1. rewrite KL. cbn [set_status set_dbg s_status]. rewrite FL.
-  cbn [lookup]. rewrite Z.eqb_refl.
-  unfold dispatch_line. cbn [s_dbg set_dbg stop_here stopframe].
-  unfold interaction. cbn [all]. unfold apply_cmd.
-  match goal with |- context[curframe ?s l] => destruct (curframe s l) as [[[cur cl] cp] cg] end.
-  cbn [s_dbg set_stopinfo botframe s_status s_info s_filter s_nprompt].
-  match goal with |- context[run_from c (all Continue) ?i ?s post] =>
-    assert (Q : quiet b s); [| pose proof (quiet_run c (all Continue) b post i s Q) as QR] end.
-  { unfold quiet. cbn [s_dbg botframe stopframe returnframe stoplineno s_info]. rewrite PAR.
-    repeat split; eauto.
-    intros p g [H|H].
-    - inversion H; subst. apply NG; [apply in_or_app; right; left; reflexivity | exact K0 | reflexivity].
-    - eapply F5; eauto. }
-  match goal with |- context[run_from c (all Continue) ?i ?s post] =>
-    destruct (run_from c (all Continue) i s post) as [ps tcs] end.
-  cbn [fst] in *. rewrite QR.
-  - rewrite FL. reflexivity.
-  - intros x Hx. apply NG. apply in_or_app; right; right; right; exact Hx.
+  destruct (first_call_step c (all Continue) b (List.length pre) st1 e0 fs1 F1 F2 F3 K0 ACC PAR F5) as (st2 & S2 & D2 & L2 & IO2).
+  { intros E. apply NG; [apply in_or_app; right; left; reflexivity | exact K0 | exact E]. }
+  rewrite <- FL in L2.
+  destruct (line_step c b (S (List.length pre)) st2 l D2 L2 KL IO2) as (st3 & S3 & Q3).
+  simpl run_from. rewrite S2, S3.
+  pose proof (quiet_run c (all Continue) b post (S (S (List.length pre))) st3 Q3) as QR.
+  destruct (run_from c (all Continue) (S (S (List.length pre))) st3 post) as [ps tcs].
+  cbn [fst] in *. rewrite QR; [reflexivity|].
+  intros x Hx. apply NG. apply in_or_app; right; right; right; exact Hx.
 Qed.
